@@ -844,34 +844,43 @@ func checkC14(c *Case) *Outcome {
 
 func TestC14(t *testing.T) { runGenerated(t, propC14) }
 
-// TestC14Exhaustive: every multigraph with <=3 nodes and 1..4 edges (self-loops included), as an ordered edge list
-// (which covers every edge order), x {Greedy, DepthFirst} x both layerers.
+// TestC14Exhaustive: every multigraph on <= N nodes with 1..M edges (self-loops included), as an ordered edge list
+// (which covers every edge order), x {Greedy, DepthFirst} x both layerers. N, M from VERIF_C14_NODES / VERIF_C14_EDGES
+// (quick 3/4, thorough 4/5); sharded by list index.
 func TestC14Exhaustive(t *testing.T) {
 	startWatchdog()
+	N, _ := strconv.Atoi(getenv("VERIF_C14_NODES", "3"))
+	M, _ := strconv.Atoi(getenv("VERIF_C14_EDGES", "4"))
+	nsh, _ := strconv.Atoi(getenv("VERIF_NSHARDS", "1"))
 	st := newStats("C14", propC14.Rule)
 	complete := false
 	defer func() { st.write(complete) }()
 	var pairs []iedge
-	for a := 0; a < 3; a++ {
-		for b := 0; b < 3; b++ {
+	for a := 0; a < N; a++ {
+		for b := 0; b < N; b++ {
 			pairs = append(pairs, iedge{a, b})
 		}
 	}
+	idx, lists := 0, 0
 	var rec func(es []iedge)
 	rec = func(es []iedge) {
 		if len(es) >= 1 {
-			for _, cb := range []int{CBGreedy, CBDepthFirst} {
-				for _, lay := range allLay {
-					c := &Case{Edges: toEdges(es, nid), CB: cb, Lay: lay, Pos: PosVAlign, Rt: RtNoop}
-					o := runCase(propC14, c, st)
-					if o.Err != nil {
-						writeFailCase("C14", c, o.Err)
-						t.Fatalf("property C14 violated (exhaustive enumeration): %v\ncase: %s", o.Err, mustRaw(c))
+			idx++
+			lists++
+			if idx%nsh == cfg.Shard {
+				for _, cb := range []int{CBGreedy, CBDepthFirst} {
+					for _, lay := range allLay {
+						c := &Case{Edges: toEdges(es, nid), CB: cb, Lay: lay, Pos: PosVAlign, Rt: RtNoop}
+						o := runCase(propC14, c, st)
+						if o.Err != nil {
+							writeFailCase("C14", c, o.Err)
+							t.Fatalf("property C14 violated (exhaustive enumeration): %v\ncase: %s", o.Err, mustRaw(c))
+						}
 					}
 				}
 			}
 		}
-		if len(es) == 4 {
+		if len(es) == M {
 			return
 		}
 		for _, p := range pairs {
@@ -880,7 +889,7 @@ func TestC14Exhaustive(t *testing.T) {
 	}
 	rec(nil)
 	complete = true
-	st.Extra["exhaustive_c14"] = fmt.Sprintf("all ordered edge lists of length 1..4 over 3 nodes (%d lists) x 2 cycle breakers x 2 layerers", 9+81+729+6561)
+	st.Extra["exhaustive_c14"] = fmt.Sprintf("all ordered edge lists of length 1..%d over %d nodes (%d lists) x 2 cycle breakers x 2 layerers", M, N, lists)
 }
 
 var _ = graph.Layout{}
